@@ -424,6 +424,18 @@ def outliers(ctx):
         y.op == "call" and m_arrcall(y, "abs") is not None for y in subterms(call_parts(x)[1][0]))
         for x in subterms(R))
     ctx.ob("PAIR-4", "reject_outliers: the scale is the median absolute deviation", ok_scale, "", fi)
+    # ... of *all* rows: a median over a selection of the deviations (d[d > 0], d[1:], ...) is another scale
+    subset = []
+    for x in subterms(R):
+        if x.op == "call" and m_arrcall(x, "median") is not None:
+            a0 = strip_wrappers(call_parts(x)[1][0])
+            if a0.op == "getitem" and any(y.op == "call" and m_arrcall(y, "abs") is not None
+                                          for y in subterms(strip_wrappers(a0.args[0]))) and \
+                    not (a0.args[0] is data):
+                subset.append(show(a0, maxdepth=2)[:60])
+    if ok_scale:
+        ctx.ob("PAIR-4", "reject_outliers: the median absolute deviation is taken over every row", not subset,
+               f"median of a selection of the deviations: {subset}" if subset else "median(|col - median(col)|)", fi)
     # driver
     drv = p.func("driver.afqmc")
     dev, dfr = _ev(p, drv)
